@@ -37,6 +37,11 @@ def gen(rng, tier):
             for k in range(meta["nsh"]):
                 if rng.random() < 0.5:
                     variants.append(elfgen.patch(data, meta, "shdr", rng.choice(["sh_size", "sh_offset"]), rng.choice(big) % mask, k))
+        cv = streamgen.covering_variant(rng, data, meta)
+        if cv:                       # one query caching more bytes than the stream holds (overlapping symtab / strtab)
+            c2 = streamgen.stream_case("any", cv[0], "plain", [], cv[1])
+            _files[c2] = cv[0]
+            cases.append(c2)
         for v in variants:
             qs = streamgen.history(rng, v, meta, info, rng.randrange(2, 7))
             c0 = streamgen.stream_case("any", v, "plain", [], [])          # open only: the trace of open_stream
